@@ -4,3 +4,6 @@
 namespace verif {
     void (*tbPhaseHook)(int phase, int n) = nullptr;
 }
+namespace verif {
+    void (*evalHook)(const Position& pos, int whiteContempt, int score) = nullptr;
+}
